@@ -436,9 +436,9 @@ fn run_real_payload(o: &mut Out, rng: &mut Rng, max_needles: usize) {
                     }
                 }
                 for (fe, not) in plan {
-                    if fe.starts_with("dlf") && edge_blank {
-                        continue; // blanks at the edge of an XML text are left out (narrower reading)
-                    }
+                    // blanks at the edge of a DLF element text are part of the criterion (dlt-viewer writes and reads them verbatim):
+                    // included since round 6 (they had been left out as a narrower reading before)
+                    let _ = edge_blank;
                     let mut f = empty_filter(0);
                     f.not = not;
                     f.pay = pc.clone();
